@@ -20,7 +20,10 @@ from tools import gen_lean  # noqa: E402
 BASE_TRUST = [
     "Lean 4.33.0 kernel (theorems elaborated by `lake build`; thorough tier re-checks .olean files with leanchecker)",
     "axioms per theorem as reported by Lean.collectAxioms: subset of {propext, Classical.choice, Quot.sound}; no native_decide, bv_decide, sorry, own axioms",
-    "tools/gen_lean.py (source -> Pendulum/Gen/*.lean translator) is trusted to render tables and the restricted expression language; cross-checked by the correspondence run",
+    "tools/gen_*.py (source -> Pendulum/Gen/*.lean translators, run on every check; DESIGN.md section 3 lists them) are trusted to read the Python/Rust "
+    "subset they accept faithfully — tables, closed-form expressions, and statement-level control flow with callees as parameters; each generated file's "
+    "header states its reading (integer casts, floor/truncation, fuel bounds); source outside the subset is reported as a fallback and breaks the tie; the "
+    "tie theorems (*_source_eq_model) prove generated definition = hand model, the correspondence run cross-checks the hand model against the code",
     "harness correspondence run (differential test of model driver vs implementation) ties the hand-written model to the code; it is as strong as the generated inputs",
     "CPython datetime/zoneinfo/timedelta, tzdata, re, pickle are modelled (DESIGN.md section 5), not verified",
 ]
@@ -249,6 +252,8 @@ def main():
             discharged=discharged,
             checker_cmd=checker,
             trusted_base=BASE_TRUST + list(getattr(P, "TRUSTED", [])),
+            generated_modules=list(getattr(P, "GEN_MODULES", None) or []),
+            lean_modules=C.prop_modules(pid),
             theorems={k: v for k, v in lean["theorems"].items()},
             partial_theorems=[k for k in lean["theorems"] if k.endswith("_partial")],
             lean_build_ok=lean["build_ok"], lean_build_s=lean.get("build_s"),
